@@ -61,6 +61,9 @@ type scCase struct {
 	Prom int64
 	Now0 int64
 	Ops  []scOp
+	// Legacy: the store directory holds a store file of the old format (targets.json: the assignment alone). It is what a
+	// first start resumes; nothing ever deletes it, so it lies next to the current store for the rest of the history
+	Legacy []scJob
 }
 type scStatObs struct {
 	Hash   uint64
@@ -494,6 +497,15 @@ func sidecarRun(in interface{}) (string, interface{}, map[string]int) {
 	if err := w.cfg.ReloadFromRaw([]byte(lpRaw)); err != nil { // a configuration with the three jobs, so that the injector writes them
 		panic(err)
 	}
+	if len(c.Legacy) > 0 {
+		var full struct {
+			Targets json.RawMessage `json:"targets"`
+		}
+		_ = json.Unmarshal(scReqBody(c.Legacy), &full)
+		if err := ioutil.WriteFile(filepath.Join(dir, "targets.json"), full.Targets, 0o644); err != nil {
+			panic(err)
+		}
+	}
 	if err := w.start(); err != nil {
 		panic(err)
 	}
@@ -566,7 +578,11 @@ func sidecarRun(in interface{}) (string, interface{}, map[string]int) {
 	if len(c.Ops) >= 3 {
 		st["nontrivial"] = 1
 	}
-	term := fmt.Sprintf("{| sk_prom := %s; sk_now0 := %s; sk_ops := %s;\n   sk_seen := %s;\n   sk_kinds := %s |}", cZ(c.Prom), cZ(c.Now0), cList(ops), cList(obs), cList(kinds))
+	st["legacy_store"] = 0
+	if len(c.Legacy) > 0 {
+		st["legacy_store"] = 1
+	}
+	term := fmt.Sprintf("{| sk_prom := %s; sk_now0 := %s; sk_ops := %s;\n   sk_seen := %s;\n   sk_kinds := %s; sk_legacy := %s |}", cZ(c.Prom), cZ(c.Now0), cList(ops), cList(obs), cList(kinds), scAssignTerm(c.Legacy))
 	return term, seen, st
 }
 
@@ -590,6 +606,13 @@ func sidecarGen(r *rand.Rand, idx int, thorough bool) interface{} {
 	// current assignment as the generator believes it, for mostly-valid follow-ups
 	cur := map[uint64]scTarget{}
 	curJob := map[uint64]int{}
+	if idx%4 == 2 { // a store of the old format: one or two jobs, one target each
+		for j := 0; j <= idx%8/4; j++ {
+			t := scTarget{Hash: uint64(1 + (idx/8+3*j)%6), Series: int64(10 + j), Total: int64(60 + j)}
+			c.Legacy = append(c.Legacy, scJob{Job: j, Targets: []scTarget{t}})
+			cur[t.Hash], curJob[t.Hash] = t, j
+		}
+	}
 	for i := 0; i < n; i++ {
 		now += int64(1 + r.Intn(100))
 		switch k := r.Intn(10); {
